@@ -62,6 +62,12 @@ structure FrameD where
   handlers : List HandlerD
   /-- lines the frame prints when its call returns normally, before `ret <marker>` -/
   afterReturn : List String
+  /-- the call to the next frame goes through a native function that calls back (`iter.each`,
+  `List.sort`, `print` → `str()`, a lazy `map` driven by `.list()` / `for`, …): the next frame runs
+  in a nested interpreter loop -/
+  nested : Bool := false
+  /-- lines the frame prints between `in <marker>` and its site (`print()` writes an empty line) -/
+  preLines : List String := []
   deriving Repr, Inhabited
 
 inductive Final where
@@ -70,6 +76,8 @@ inductive Final where
   | raise (cls : List String) (msg : String) (natives : List String)
   | exit (n : Option Int)
   | finish
+  /-- the innermost frame is the script of a module and imports a module that does not compile -/
+  | importFail
   deriving Repr, Inhabited
 
 structure Chain where
@@ -107,6 +115,9 @@ structure Expected where
   status : String
   stdout : List Pat
   stderr : List Pat
+  /-- stderr holds the compiler's diagnostics of another module (text not judged here: at least one
+  line, the first one starts with `error`) -/
+  stderrDiag : Bool := false
   deriving Repr, Inhabited
 
 def statusText (e : ProgramEnd) : String :=
@@ -118,11 +129,12 @@ def statusText (e : ProgramEnd) : String :=
 
 /-- The **documented** status table (property text + harness rendering `VmExit:code`), written out
 independently of the generated `Gen.runStatus`: 0 for a normal finish and for `exit()`/`exit(0)`,
-`n` for `exit(n)` (saturating outside `0..65535`), 1 for an uncaught error. -/
+`n` for `exit(n)` (saturating outside `0..65535`) wherever `exit` is called, 1 for an uncaught error
+and for a compile error (of the script or of a module it imports). -/
 def specStatusText : ProgramEnd → String
   | .finished => "Ok:0"
-  | .exitCall none => "Ok:0"
-  | .exitCall (some n) =>
+  | .exitCall none _ => "Ok:0"
+  | .exitCall (some n) _ =>
     if n ≤ 0 then "Ok:0" else if n ≥ 65535 then "RuntimeError:65535" else s!"RuntimeError:{n}"
   | .uncaughtError => "RuntimeError:1"
   | .compileError => "CompileError:1"
@@ -173,6 +185,13 @@ def returnLines (frames : List FrameD) (c : Nat) : List Pat :=
 
 def nativePat (pre : String) (name : String) : Pat := .lit s!"{pre}native:0 in {name}()"
 
+/-- What has been printed when the innermost frame reaches its site. -/
+def enteredLines (ch : Chain) : List Pat :=
+  ch.frames.flatMap fun f => [Pat.lit s!"in {f.marker}"] ++ f.preLines.map Pat.lit
+
+/-- Number of natives that called back (nested interpreter loops) below frame `c`. -/
+def nestedBelow (ch : Chain) (c : Nat) : Nat := ((ch.frames.take c).filter (·.nested)).length
+
 namespace Spec
 
 /-- The frames an error raised in frame `depth` (at `site`, below the native frames `top`) passes on
@@ -203,17 +222,19 @@ def unwind (ch : Chain) (out : List Pat) : List (Nat × HandlerD) → (depth : N
       let out := out ++ handlerLines h e'
       match h.action with
       | .cont => { status := specStatusText .finished, stdout := out ++ returnLines ch.frames c, stderr := [] }
-      | .exit n => { status := specStatusText (.exitCall (some n)), stdout := out, stderr := [] }
+      | .exit n => { status := specStatusText (.exitCall (some n) 0), stdout := out, stderr := [] }
       | .wrap cls msg s inner => unwind ch out rest c (Err.new cls msg (if inner then some e' else none)) s []
       | .rethrow s => unwind ch out rest c e' s []
     else unwind ch out rest depth e site top
 
 def run (ch : Chain) : Expected :=
-  let entered := ch.frames.map fun f => Pat.lit s!"in {f.marker}"
+  let entered := enteredLines ch
   let d := ch.frames.length - 1
   match ch.final with
   | .finish => { status := specStatusText .finished, stdout := entered ++ returnLines ch.frames d, stderr := [] }
-  | .exit n => { status := specStatusText (.exitCall n), stdout := entered, stderr := [] }
+  | .exit n => { status := specStatusText (.exitCall n 0), stdout := entered, stderr := [] }
+  -- the diagnostics are reported, nothing after the import runs, compile-error status
+  | .importFail => { status := specStatusText .importCompileError, stdout := entered, stderr := [], stderrDiag := true }
   | .raise cls msg top => unwind ch entered (allHandlers ch) d (Err.new cls msg none) (ch.frames[d]!).site top
 
 end Spec
@@ -295,18 +316,20 @@ def unwind (ch : Chain) (funs : List FunInfo) (out : List Pat) :
         let rip := 3 + 2 * hi.t
         match hi.h.action with
         | .cont => { status := statusText .finished, stdout := out ++ returnLines ch.frames hi.frame, stderr := [] }
-        | .exit n => { status := statusText (.exitCall (some n)), stdout := out, stderr := [] }
+        | .exit n => { status := statusText (.exitCall (some n) (nestedBelow ch hi.frame)), stdout := out, stderr := [] }
         | .wrap cls msg _ inner => unwind ch funs out fuel f'' rest (Err.new cls msg (if inner then some e' else none)) rip
         | .rethrow _ => unwind ch funs out fuel f'' rest e' rip
-    | .stopped _ => { status := "STOPPED", stdout := out, stderr := [] }
+    | .stopped _ _ => { status := "STOPPED", stdout := out, stderr := [] }
     | .stuck => { status := "STUCK", stdout := out, stderr := [] }
 
 def run (ch : Chain) : Expected :=
-  let entered := ch.frames.map fun f => Pat.lit s!"in {f.marker}"
+  let entered := enteredLines ch
   let d := ch.frames.length - 1
   match ch.final with
   | .finish => { status := statusText .finished, stdout := entered ++ returnLines ch.frames d, stderr := [] }
-  | .exit n => { status := statusText (.exitCall n), stdout := entered, stderr := [] }
+  -- the exit crosses every native that called back below the exiting frame
+  | .exit n => { status := statusText (.exitCall n (nestedBelow ch d)), stdout := entered, stderr := [] }
+  | .importFail => { status := statusText .importCompileError, stdout := entered, stderr := [], stderrDiag := true }
   | .raise cls msg top =>
     let st := build ch top
     let fiber : Fiber :=
@@ -335,11 +358,18 @@ def accepts (pats : List Pat) (act : List String) : Option (Nat × String × Str
     | none, some a => some (i, "<nothing>", a)
     | none, none => none
 
+/-- stderr of a run that ends with another module's compile error: the diagnostics are there. -/
+def diagOk (err : List String) : Bool :=
+  match err with
+  | l :: _ => l.startsWith "error"
+  | [] => false
+
 def compareTo (what : String) (e : Expected) (status : String) (out err : List String) : String :=
   if e.status != status then s!"{what} status expected {e.status} got {status}"
   else match firstDiff (e.stdout.map Pat.exact) out with
   | some (i, a, b) => s!"{what} stdout line {i}: expected [{a}] got [{b}]"
   | none =>
+  if e.stderrDiag then (if diagOk err then "ok" else s!"{what} stderr: expected the compiler's diagnostics got [{err.headD "<nothing>"}]") else
   match firstDiff (e.stderr.map Pat.exact) err with
   | some (i, a, b) => s!"{what} stderr line {i}: expected [{a}] got [{b}]"
   | none => "ok"
@@ -357,6 +387,7 @@ def judge (ch : Chain) (status : String) (out err : List String) : String :=
     else match accepts s.stdout out with
     | some (i, a, b) => s!"spec stdout line {i}: expected [{a}] got [{b}]"
     | none =>
+    if s.stderrDiag then (if diagOk err then "ok" else s!"spec stderr: expected the compiler's diagnostics got [{err.headD "<nothing>"}]") else
     match accepts s.stderr err with
     | some (i, a, b) => s!"spec stderr line {i}: expected [{a}] got [{b}]"
     | none => "ok"
